@@ -490,6 +490,8 @@ func singleLocalDef(info *types.Info, decl *ast.FuncDecl, obj types.Object) ast.
 				writes++
 				if x.Tok == token.DEFINE && len(x.Lhs) == len(x.Rhs) {
 					def = x.Rhs[i]
+				} else if x.Tok == token.DEFINE && len(x.Rhs) == 1 {
+					def = x.Rhs[0] // one of several results of a single call
 				}
 			}
 		case *ast.ValueSpec:
@@ -522,4 +524,38 @@ func singleLocalDef(info *types.Info, decl *ast.FuncDecl, obj types.Object) ast.
 		return def
 	}
 	return nil
+}
+
+// AnyTrueEdges: true edges of conditions that are disjunctions whose every disjunct is accepted by pred
+// (on the edge at least one of the accepted conditions holds, and nothing else can have caused the branch).
+func (f *Flow) AnyTrueEdges(pred func(e ast.Expr) bool) map[Edge]bool {
+	out := map[Edge]bool{}
+	for _, b := range f.G.Blocks {
+		cond := f.Cond(b)
+		if !b.Live || cond == nil {
+			continue
+		}
+		var disj []ast.Expr
+		var flat func(e ast.Expr)
+		flat = func(e ast.Expr) {
+			e = ast.Unparen(e)
+			if be, ok := e.(*ast.BinaryExpr); ok && be.Op == token.LOR {
+				flat(be.X)
+				flat(be.Y)
+				return
+			}
+			disj = append(disj, e)
+		}
+		flat(cond)
+		all := len(disj) > 0
+		for _, d := range disj {
+			if !pred(d) {
+				all = false
+			}
+		}
+		if all {
+			out[Edge{b, 0}] = true
+		}
+	}
+	return out
 }
